@@ -1014,9 +1014,19 @@ def e6_none_safety(ctx) -> None:
             continue
         fn = None
         for f in m.functions:
-            if f.node.lineno <= line <= getattr(f.node, "end_lineno", f.node.lineno) and (fn is None or f.node.lineno >= fn.node.lineno):
+            if f.node.lineno <= line <= getattr(f.node, "end_lineno", f.node.lineno) and (fn is None or f.node.lineno >= fn.node.lineno) and f.name != "<module>":
                 fn = f
+        if fn is None or fn not in scope:
+            # code of a helper that was inlined keeps its positions: the line belongs to every function that now contains a node from it
+            hosts = [f for f in scope if f.module is m and any(getattr(x, "lineno", None) == line for x in ast.walk(f.node))]
+            if hosts:
+                fn = hosts[0]
         none_related = "None" in msg or "Optional[" in msg
+        if fn is not None and fn in scope and code == "attr-defined" and not none_related and "has no attribute" in msg:
+            n += 1
+            ctx.fail("E6", fn, None, f"the type checker finds an attribute access that the static type does not support ({msg}) at line {line} of consume-reachable code: for a value of "
+                     "the declared type that is not of the assumed subclass it escapes as AttributeError", construct=f"attribute not on the static type: {msg[:80]}")
+            continue
         if fn is not None and fn in scope and none_related and code in ("union-attr", "arg-type", "index", "operator", "call-overload", "attr-defined", "return-value", "misc", "call-arg"):
             n += 1
             node = next((x for x in ast.walk(fn.node) if getattr(x, "lineno", None) == line and isinstance(x, ast.stmt)), fn.node)
